@@ -27,9 +27,86 @@ pub struct Extra {
     pub names: Vec<String>,
 }
 
+// ------------------------------------------------------------------------------------------------
+// C08, static part: an adapter over a `!Unpin` upstream must itself be `!Unpin`, otherwise safe code
+// may move the adapter - and with it the upstream it has already polled - between two polls.
+// (`is_unpin!` uses autoref-based specialisation, so it needs the concrete types, hence a macro.)
+
+struct UnpinProbe<'a, T>(&'a T);
+trait ProbeYes {
+    fn is_unpin(&self) -> bool {
+        true
+    }
+}
+impl<'a, T: Unpin> ProbeYes for UnpinProbe<'a, T> {}
+trait ProbeNo {
+    fn is_unpin(&self) -> bool {
+        false
+    }
+}
+impl<'a, 'b, T> ProbeNo for &'b UnpinProbe<'a, T> {}
+macro_rules! is_unpin {
+    ($e:expr) => {{
+        let v = $e;
+        let r = (&UnpinProbe(&v)).is_unpin();
+        drop(v);
+        r
+    }};
+}
+
+struct PinnedUp<I>(std::marker::PhantomData<fn() -> I>, std::marker::PhantomPinned);
+impl<I> futures_core::Stream for PinnedUp<I> {
+    type Item = I;
+    fn poll_next(self: std::pin::Pin<&mut Self>, _cx: &mut std::task::Context<'_>) -> std::task::Poll<Option<I>> {
+        std::task::Poll::Ready(None)
+    }
+}
+fn pinned_up<I>() -> PinnedUp<I> {
+    PinnedUp(std::marker::PhantomData, std::marker::PhantomPinned)
+}
+
+fn unpin_matrix() -> Extra {
+    use crate::subjects::{F, TF, UF};
+    use futures_buffered::{BufferedStreamExt, BufferedTryStreamExt};
+    let mut rows: Vec<(&str, bool)> = vec![];
+    // sanity of the probe itself
+    let probe_ok = is_unpin!(0u8) && !is_unpin!(std::marker::PhantomPinned);
+    rows.push(("buffered_unordered over a !Unpin stream", is_unpin!(pinned_up::<F>().buffered_unordered(2))));
+    rows.push(("buffered_ordered over a !Unpin stream", is_unpin!(pinned_up::<F>().buffered_ordered(2))));
+    rows.push(("try_buffered_unordered over a !Unpin stream", is_unpin!(pinned_up::<Result<TF, Tok>>().try_buffered_unordered(2))));
+    rows.push(("try_buffered_ordered over a !Unpin stream", is_unpin!(pinned_up::<Result<TF, Tok>>().try_buffered_ordered(2))));
+    rows.push(("for_each_concurrent over a !Unpin stream", is_unpin!(pinned_up::<u32>().for_each_concurrent(2, |i: u32| UF::new(i)))));
+    let mut found = vec![];
+    if !probe_ok {
+        found.push(("unpin matrix".to_string(), "probe-broken".to_string(), "the Unpin probe of the harness does not work".to_string(), vec![]));
+    }
+    for (name, unpin) in &rows {
+        if *unpin {
+            found.push((
+                format!("unpin matrix: {}", name),
+                "adapter-unpin-over-pinned-stream".to_string(),
+                format!("{} is Unpin: safe code may move it, and with it the upstream stream it has already polled, between two polls", name),
+                vec![],
+            ));
+        }
+    }
+    Extra {
+        executions: rows.len() as u64,
+        states: rows.len() as u64,
+        transitions: rows.len() as u64,
+        samples: vec![rows.iter().map(|(n, u)| format!("{}: Unpin = {}", n, u)).collect()],
+        found,
+        note: "static Unpin matrix of the five adapters over a !Unpin upstream".into(),
+        names: vec!["unpin matrix (5 adapters over a !Unpin upstream must be !Unpin)".into()],
+    }
+}
+
 pub fn extra(prop: &str, tier: &str, threads: usize) -> Option<Extra> {
     if tier == "miri" {
         return None;
+    }
+    if prop == "C08" {
+        return Some(unpin_matrix());
     }
     match prop {
         "C03" => Some(layout_sweep(if tier == "thorough" { 512 } else { 64 }, threads)),
